@@ -174,10 +174,43 @@ def run(ctx, eng):
         if isinstance(nd, ast.Constant) and nd.value in (
                 b'204', b'304', '204', '304', 204, 304):
             mentions.add(str(nd.value))
-    ctx.ob('TAB.no-content', f4.qual, '204/304 exempt', len(mentions) >= 2,
-           'responses defined to have no content (204, 304) are not exempt: '
-           'a 304 with content-length 5 ended by an empty DATA frame is '
-           'rejected', node=f4.node)
+    # the exemption matters wherever a message can be found complete: one
+    # obligation per site that runs the completion check (the DATA path of
+    # the pinned tree is the known finding F11; a new site is a new finding)
+    sites = sorted(q for q, fx in m.funcs.items()
+                   if fx.cls == 'stream.H2Stream' and any(
+                       cm.calls_to(p, '_track_content_length')
+                       for p in eng.I.run(fx)))
+    ctx.require(sites, 'no site runs the content-length completion check')
+    for q in sites:
+        fx = m.funcs[q]
+        if q.endswith('.receive_data'):
+            ctx.ob('TAB.no-content', f4.qual, '204/304 exempt',
+                   len(mentions) >= 2, 'responses defined to have no '
+                   'content (204, 304) are not exempt: a 304 with '
+                   'content-length 5 ended by an empty DATA frame is '
+                   'rejected', node=f4.node)
+        else:
+            ctx.ob('TAB.no-content', fx.qual, '204/304 exempt at this '
+                   'completion check', len(mentions) >= 2,
+                   'the received total is compared with content-length '
+                   'here, but 204/304 responses are not exempt: a 304 with '
+                   'content-length 1234 that ends on its HEADERS frame is '
+                   'rejected although it carries no DATA', node=fx.node)
+    # the expected length of a header block depends on that block and on the
+    # request method only - not on what an earlier block of the stream left
+    stale = set()
+    for p in eng.I.run(f4):
+        for e in p.events:
+            if e.kind == 'assume' and '_expected_content_length' in \
+                    cm.show0(e.cond):
+                stale.add(cm.show0(e.cond))
+    ctx.ob('FLOW.expected', f4.qual, 'every header block sets the expected '
+           'length afresh', not stale, 'decides on the value an earlier '
+           'header block left (%s): a 1xx block with a content-length fixes '
+           'the length the final response is held to' % sorted(stale)
+           if stale else 'no path reads the previous expected length',
+           node=f4.node)
     # ---- request_method
     writers = flow.attr_writers(eng, 'request_method')
     ctx.ob('OWN.method', 'stream.H2Stream.request_method', 'writers',
